@@ -467,7 +467,9 @@ class Completions(Job):
             i.got_wordlist(WL.PGPWordList())
             comps = h.get_word_completions(p)
         comps = list(comps)
-        odd, even = WL.odd_words_lowercase, WL.even_words_lowercase
+        # the reference lists are computed here from the byte->word tables choose_words() draws from (not taken from the completion sets themselves)
+        odd = {w.lower() for w in WL.byte_to_odd_word.values()}
+        even = {w.lower() for w in WL.byte_to_even_word.values()}
         for c in comps:
             check(c.startswith(p), "a completion does not extend what was typed")
         # structure: typed words w0..w(h-1) complete, last partial
@@ -507,7 +509,7 @@ class Completions(Job):
             if not c.startswith(p):
                 return "completion %r does not extend %r" % (c, p)
             cp = c.split("-")
-            tbl = WL.odd_words_lowercase if k % 2 == 0 else WL.even_words_lowercase
+            tbl = {w.lower() for w in (WL.byte_to_odd_word if k % 2 == 0 else WL.byte_to_even_word).values()}
             if len(cp) < k + 1 or cp[k] not in tbl:
                 return "completion %r of %r: word %d not from the right list" % (c, p, k)
             if k + 1 < 2 and not c.endswith("-"):
